@@ -273,6 +273,24 @@ fn coded_scenario(g: &mut G, ctx: &RunCtx) -> RunReport {
     };
     plan.rereads = g.below(4) as usize;
     let mut d = damage_plan(g, plan);
+    // (no draw) the landmarks of the inner format: a silence longer than the read timeout inside the ten octets of the
+    // gzip header or the eight of its trailer, the rest arrives afterwards
+    if d.damage == Damage::Gap && gzip && d.plan.framing != Framing::Chunked && d.plan.cut_at.unwrap_or(0) % 2 == 0 && z.len() > 20 {
+        let k0 = d.plan.cut_at.unwrap_or(0);
+        let head_len = d.plan.wire.head_len;
+        let k = if k0 % 4 == 0 { head_len + z.len() - 1 - (k0 / 4) % 7 } else { head_len + 1 + (k0 / 4) % 9 };
+        let wire = d.plan.wire.bytes.clone();
+        if k < wire.len() {
+            let mut sc = Script::from_wire(&wire, &[k, wire.len() - k], End::Fin);
+            sc.wait_before(1, (d.plan.read_timeout_ms + 1) * NS_PER_MS);
+            d.plan.script = sc;
+            d.plan.cut_at = Some(k);
+            d.plan.nsegs = 2;
+            d.plan.damage = format!("Gap:at={}:inside-the-gzip-{}", k, if k0 % 4 == 0 { "trailer" } else { "header" });
+            d.plan.rereads = d.plan.rereads.max(2);
+            g.probe("read-timeout-inside-the-gzip-header-or-trailer-then-continue");
+        }
+    }
     d.plan.damage = format!("coded({}):{}", if gzip { "gzip" } else { "deflate" }, d.plan.damage);
     let ran = bodyx::run(&d.plan, ctx, false);
     let mut stats = Stats::default();
